@@ -189,6 +189,12 @@ func (a *analysis) compute(v ssa.Value) kind {
 		switch x.Op {
 		case token.MUL: // load
 			switch addr := x.X.(type) {
+			case *ssa.SliceToArrayPointer:
+				// the array value of a fixed-size conversion: the first N elements of the slice (in bounds by C01)
+				if k := at(addr); k == kStable {
+					return kStable
+				}
+				return kTop
 			case *ssa.IndexAddr:
 				bk, ik := at(addr.X), at(addr.Index)
 				if (bk == kExt || bk == kStable) && ik == kStable {
@@ -218,6 +224,10 @@ func (a *analysis) compute(v ssa.Value) kind {
 						return at(st.Val)
 					}
 				}
+				// a local composite literal of constants, read as a whole
+				if constLiteral(addr) {
+					return kStable
+				}
 				// other local variables whose address is taken: only constant tables / named results in detectors
 				return kTop
 			}
@@ -237,6 +247,12 @@ func (a *analysis) compute(v ssa.Value) kind {
 				return kStable
 			}
 		}
+	case *ssa.SliceToArrayPointer:
+		// a pointer to the first N elements: the same bytes on both runs when the slice starts at the same place
+		if k := at(x.X); k == kStable || k == kExt {
+			return kStable
+		}
+		return kTop
 	case *ssa.IndexAddr, *ssa.FieldAddr:
 		return kStable // an address; classified at the load
 	case *ssa.Slice:
@@ -402,6 +418,45 @@ func (a *analysis) compute(v ssa.Value) kind {
 		}
 	}
 	return kTop
+}
+
+// constLiteral: the local is filled only with constants (element by element,
+// possibly nested) and is otherwise only read or sliced.
+func constLiteral(a *ssa.Alloc) bool {
+	var okAddr func(v ssa.Value, depth int) bool
+	okAddr = func(v ssa.Value, depth int) bool {
+		if depth > 4 {
+			return false
+		}
+		refs := v.Referrers()
+		if refs == nil {
+			return false
+		}
+		for _, ref := range *refs {
+			switch x := ref.(type) {
+			case *ssa.IndexAddr:
+				if x.X != v || !okAddr(x, depth+1) {
+					return false
+				}
+			case *ssa.FieldAddr:
+				if x.X != v || !okAddr(x, depth+1) {
+					return false
+				}
+			case *ssa.Store:
+				if x.Addr != v {
+					return false
+				}
+				if _, isK := x.Val.(*ssa.Const); !isK {
+					return false
+				}
+			case *ssa.UnOp, *ssa.Slice, *ssa.DebugRef:
+			default:
+				return false
+			}
+		}
+		return true
+	}
+	return okAddr(a, 0)
 }
 
 // isMinMaxPhi: v = phi(c, g) realising min(c,g) or max(c,g) for a stable c and a growing g.
@@ -644,6 +699,16 @@ func (a *analysis) call(c *ssa.Call) kind {
 		return kTop
 	}
 	if callee.Blocks == nil || !strings.HasPrefix(pkgPath(callee), mod) {
+		// a side-effect-free library function of values that are the same on both runs (no function arguments:
+		// what a callback does is not known here)
+		if isPureStd(name) && allStable(ks...) {
+			for _, x := range c.Call.Args {
+				if _, isFn := x.Type().Underlying().(*types.Signature); isFn {
+					return kTop
+				}
+			}
+			return kStable
+		}
 		return kTop
 	}
 	// selector helpers (min/max written by hand)
@@ -767,6 +832,10 @@ func pkgPath(f *ssa.Function) string {
 	for p := f; p != nil; p = p.Parent() {
 		if p.Pkg != nil {
 			return p.Pkg.Pkg.Path()
+		}
+		// an instance of a generic function belongs to the package of the generic
+		if o := p.Origin(); o != nil && o != p && o.Pkg != nil {
+			return o.Pkg.Pkg.Path()
 		}
 	}
 	return ""
@@ -1638,7 +1707,7 @@ func reachFrom(b *ssa.BasicBlock) map[*ssa.BasicBlock]bool {
 
 // isPureStd: standard-library functions without side effects whose result is a function of their arguments' values.
 func isPureStd(name string) bool {
-	for _, pre := range []string{"bytes.", "(encoding/binary.", "math/bits.", "strings.", "unicode.", "unicode/utf8.", "unicode/utf16."} {
+	for _, pre := range []string{"bytes.", "(encoding/binary.", "math/bits.", "strings.", "unicode.", "unicode/utf8.", "unicode/utf16.", "slices.", "cmp."} {
 		if strings.HasPrefix(name, pre) {
 			return true
 		}
